@@ -166,8 +166,10 @@ class DLISFile:
             )
 
         n = 0
-        for eflr_set_type in self._eflr_sets:
-            n += len(list(self._eflr_sets.get_all_items_for_set_type(eflr_set_type)))
+        for logical_file in self.logical_files:
+            # each logical file keeps its own EFLR sets (logical files are independent from each other)
+            for eflr_set_type in list(logical_file._eflr_sets):
+                n += len(list(logical_file._eflr_sets.get_all_items_for_set_type(eflr_set_type)))
 
         for idx_lf, logical_file in enumerate(self.logical_files):
             for mfd in multi_frame_data_objects[idx_lf]:
@@ -362,7 +364,7 @@ class LogicalFile:
             origin_reference    :   origin_reference of the Origin this record belongs to.
         """
 
-        parent = self.physical_file._eflr_sets.get_or_make_set(
+        parent = self._eflr_sets.get_or_make_set(
             eflr_types.AxisSet, set_name=set_name
         )
         self._eflr_sets.try_add_set(parent)
@@ -435,7 +437,7 @@ class LogicalFile:
             A configured calibration object.
         """
 
-        parent = self.physical_file._eflr_sets.get_or_make_set(
+        parent = self._eflr_sets.get_or_make_set(
             eflr_types.CalibrationSet, set_name=set_name
         )
         self._eflr_sets.try_add_set(parent)
@@ -515,7 +517,7 @@ class LogicalFile:
             A configured calibration coefficient item.
         """
 
-        parent = self.physical_file._eflr_sets.get_or_make_set(
+        parent = self._eflr_sets.get_or_make_set(
             eflr_types.CalibrationCoefficientSet, set_name=set_name
         )
         self._eflr_sets.try_add_set(parent)
@@ -647,7 +649,7 @@ class LogicalFile:
             A configured CalibrationMeasurementItem instance.
         """
 
-        parent = self.physical_file._eflr_sets.get_or_make_set(
+        parent = self._eflr_sets.get_or_make_set(
             eflr_types.CalibrationMeasurementSet, set_name=set_name
         )
         self._eflr_sets.try_add_set(parent)
@@ -740,7 +742,7 @@ class LogicalFile:
             channel_name=name, dataset_name=dataset_name
         )
 
-        parent = self.physical_file._eflr_sets.get_or_make_set(
+        parent = self._eflr_sets.get_or_make_set(
             eflr_types.ChannelSet, set_name=set_name
         )
 
@@ -816,7 +818,7 @@ class LogicalFile:
             A configured comment item.
         """
 
-        parent = self.physical_file._eflr_sets.get_or_make_set(
+        parent = self._eflr_sets.get_or_make_set(
             eflr_types.CommentSet, set_name=set_name
         )
         self._eflr_sets.try_add_set(parent)
@@ -882,7 +884,7 @@ class LogicalFile:
             A configured computation item.
         """
 
-        parent = self.physical_file._eflr_sets.get_or_make_set(
+        parent = self._eflr_sets.get_or_make_set(
             eflr_types.ComputationSet, set_name=set_name
         )
         self._eflr_sets.try_add_set(parent)
@@ -989,7 +991,7 @@ class LogicalFile:
             A configured EquipmentItem instance.
         """
 
-        parent = self.physical_file._eflr_sets.get_or_make_set(
+        parent = self._eflr_sets.get_or_make_set(
             eflr_types.EquipmentSet, set_name=set_name
         )
         self._eflr_sets.try_add_set(parent)
@@ -1111,7 +1113,7 @@ class LogicalFile:
                 f"got types: {', '.join(str(type(c)) for c in channels)}"
             )
 
-        parent = self.physical_file._eflr_sets.get_or_make_set(
+        parent = self._eflr_sets.get_or_make_set(
             eflr_types.FrameSet, set_name=set_name
         )
         self._eflr_sets.try_add_set(parent)
@@ -1160,7 +1162,7 @@ class LogicalFile:
             A configured group item.
         """
 
-        parent = self.physical_file._eflr_sets.get_or_make_set(
+        parent = self._eflr_sets.get_or_make_set(
             eflr_types.GroupSet, set_name=set_name
         )
         self._eflr_sets.try_add_set(parent)
@@ -1170,7 +1172,7 @@ class LogicalFile:
             description=description,
             object_list=object_list,
             group_list=group_list,
-            parent=self.physical_file._eflr_sets.get_or_make_set(
+            parent=self._eflr_sets.get_or_make_set(
                 eflr_types.GroupSet, set_name=set_name
             ),
             origin_reference=origin_reference or self.default_origin_reference,
@@ -1250,7 +1252,7 @@ class LogicalFile:
             A configured Long Name item.
         """
 
-        parent = self.physical_file._eflr_sets.get_or_make_set(
+        parent = self._eflr_sets.get_or_make_set(
             eflr_types.LongNameSet, set_name=set_name
         )
         self._eflr_sets.try_add_set(parent)
@@ -1309,7 +1311,7 @@ class LogicalFile:
             A configured message.
         """
 
-        parent = self.physical_file._eflr_sets.get_or_make_set(
+        parent = self._eflr_sets.get_or_make_set(
             eflr_types.MessageSet, set_name=set_name
         )
         self._eflr_sets.try_add_set(parent)
@@ -1363,7 +1365,7 @@ class LogicalFile:
             A configured no-format item.
         """
 
-        parent = self.physical_file._eflr_sets.get_or_make_set(
+        parent = self._eflr_sets.get_or_make_set(
             eflr_types.NoFormatSet, set_name=set_name
         )
         self._eflr_sets.try_add_set(parent)
@@ -1522,7 +1524,7 @@ class LogicalFile:
             A configured OriginItem instance.
         """
 
-        parent = self.physical_file._eflr_sets.get_or_make_set(
+        parent = self._eflr_sets.get_or_make_set(
             eflr_types.OriginSet, set_name=set_name
         )
         self._eflr_sets.try_add_set(parent)
@@ -1634,7 +1636,7 @@ class LogicalFile:
             A configured ParameterItem instance.
         """
 
-        parent = self.physical_file._eflr_sets.get_or_make_set(
+        parent = self._eflr_sets.get_or_make_set(
             eflr_types.ParameterSet, set_name=set_name
         )
         self._eflr_sets.try_add_set(parent)
@@ -1751,7 +1753,7 @@ class LogicalFile:
             A configured Path instance.
         """
 
-        parent = self.physical_file._eflr_sets.get_or_make_set(
+        parent = self._eflr_sets.get_or_make_set(
             eflr_types.PathSet, set_name=set_name
         )
         self._eflr_sets.try_add_set(parent)
@@ -1827,7 +1829,7 @@ class LogicalFile:
             A configured ProcessItem instance.
         """
 
-        parent = self.physical_file._eflr_sets.get_or_make_set(
+        parent = self._eflr_sets.get_or_make_set(
             eflr_types.ProcessSet, set_name=set_name
         )
         self._eflr_sets.try_add_set(parent)
@@ -1887,7 +1889,7 @@ class LogicalFile:
             A configured splice.
         """
 
-        parent = self.physical_file._eflr_sets.get_or_make_set(
+        parent = self._eflr_sets.get_or_make_set(
             eflr_types.SpliceSet, set_name=set_name
         )
         self._eflr_sets.try_add_set(parent)
@@ -1944,7 +1946,7 @@ class LogicalFile:
             A configured tool.
         """
 
-        parent = self.physical_file._eflr_sets.get_or_make_set(
+        parent = self._eflr_sets.get_or_make_set(
             eflr_types.ToolSet, set_name=set_name
         )
         self._eflr_sets.try_add_set(parent)
@@ -2030,7 +2032,7 @@ class LogicalFile:
             A configured WellReferencePointItem instance.
         """
 
-        parent = self.physical_file._eflr_sets.get_or_make_set(
+        parent = self._eflr_sets.get_or_make_set(
             eflr_types.WellReferencePointSet, set_name=set_name
         )
         self._eflr_sets.try_add_set(parent)
@@ -2096,7 +2098,7 @@ class LogicalFile:
             A configured zone, added to the DLIS.
         """
 
-        parent = self.physical_file._eflr_sets.get_or_make_set(
+        parent = self._eflr_sets.get_or_make_set(
             eflr_types.ZoneSet, set_name=set_name
         )
         self._eflr_sets.try_add_set(parent)
@@ -2107,7 +2109,7 @@ class LogicalFile:
             domain=domain,
             maximum=maximum,
             minimum=minimum,
-            parent=self.physical_file._eflr_sets.get_or_make_set(
+            parent=self._eflr_sets.get_or_make_set(
                 eflr_types.ZoneSet, set_name=set_name
             ),
             origin_reference=origin_reference or self.default_origin_reference,
